@@ -17,7 +17,8 @@
     `unknown`     none of the rules applies (a user callable, a helper of another module, an element of a new container).
   The order is flat: `p ⊑ q` iff `p = q` or `q = unknown`; `join` is the least upper bound.
 
-  R1 `allocHeads`   — a call with one of these heads allocates its result whatever the arguments: `x.copy()`, `np.take`,
+  R1 `allocHeads`   — a call with one of these heads allocates its result whatever the arguments (unless it is given a
+                      `copy=` keyword other than `True`, `mayNotCopy`: then it is a view of its operand): `x.copy()`, `np.take`,
                       `np.delete`, `np.concatenate`, `np.where`, `np.zeros_like`, `x.astype(…)`, `np.repeat` / `x.repeat`,
                       `np.arange`, the sorting / searching functions, `x.tolist()`, `np.isnan` / `np.isnat` …
                       CAVEAT (`.copy`): the classifier is about the object; `frame.copy()` is a NEW dict over the same
@@ -89,6 +90,15 @@ def allocHeads : List String :=
    "np.repeat", ".repeat", "np.arange", "np.argsort", ".argsort", "np.lexsort", "np.nonzero", "np.flatnonzero", "np.sort",
    "np.unique", "np.fromiter", "np.bincount", ".cumsum", "np.isnan", "np.isnat", "np.random.choice", ".tolist",
    "np.full_like", "np.zeros", "np.ones", "np.full", "np.array"]
+
+/-- R1, the exception: NumPy's `copy=` keyword (`x.astype(dtype, copy=False)`, `np.array(x, copy=False)`) makes the call
+    return its operand itself when nothing has to be converted.  An allocating head keeps rule R1 only if no `copy=` keyword is
+    given or it is literally `True`; otherwise the result has the provenance of argument 0. -/
+def mayNotCopy : List Term → Bool
+  | [] => false
+  | .app "=copy" [.sym "True"] :: rest => mayNotCopy rest
+  | .app "=copy" _ :: _ => true
+  | _ :: rest => mayNotCopy rest
 
 /-- R2: elementwise operators on arrays. -/
 def elementwiseHeads : List String :=
@@ -220,7 +230,8 @@ def provM (env : Env) : Mode → Term → Prov
   | m, .app "Or" [a, b] => wrap m (join (provM env .obj a) (provM env .obj b))
   | m, .app f args =>
     wrap m (
-      if allocHeads.contains f then .fresh
+      if allocHeads.contains f && mayNotCopy args then provArg env 0 args
+      else if allocHeads.contains f then .fresh
       else if elementwiseHeads.contains f then .fresh
       else if containerHeads.contains f then .fresh
       else if viewHeads0.contains f then provArg env 0 args
